@@ -135,7 +135,7 @@ let handler r =
       put_i (int_of_z (metro_kept burn thin sample));
       put_i (int_of_z (if dim = 1 then metro_consumed burn thin sample else metro2_consumed burn thin sample));
       put_i 1; put_i 1
-  | "law" -> put_w "NOMODEL"
+  | "law" | "lawh" -> put_w "NOMODEL"
   | o -> put_w ("MODELERR unknown_op_" ^ o)
 
 let () = run handler
